@@ -12,7 +12,7 @@ use std::collections::{BTreeMap, BTreeSet, HashMap, HashSet};
 use std::sync::atomic::{AtomicU64, Ordering};
 use std::sync::Mutex;
 use vharness::refcrypt::menu::{self, doc_from_portable as doc_from_json, doc_to_portable as doc_to_json, Config, DocKind, IdShape, Leaf, F};
-use vharness::refcrypt::{pdfdoc_code, pdfdoc_encodable, utf8_prep, utf8_prep_full};
+use vharness::refcrypt::{pdfdoc_code, pdfdoc_encodable, utf8_prep, utf8_prep_full, EncDict};
 use vharness::{cmp, util, Mode, Run};
 
 const DEPTH: usize = 4;
@@ -90,6 +90,9 @@ struct Tuple {
     depth: usize,
     /// the document nests deeper than the reader accepts: save_to+load_mem is not a transition
     in_memory_only: bool,
+    /// evaluate authenticate_user_password / authenticate_owner_password / authenticate_password on every encrypted
+    /// state (revision 6, quick tier: the long-password family only - revision 5 runs the same code with a cheap hash)
+    auth_probes: bool,
     plain: Document,
 }
 
@@ -115,6 +118,8 @@ fn expected_text(inv: &str) -> &'static str {
         "reload-keeps-plaintext" => "save_to + load_mem of an unencrypted state returns the plaintext document",
         "kept-state-present" => "after a successful decrypt the document keeps the parameters it was decrypted with (Document::encryption_state is Some)",
         "re-encrypt-with-kept-state" => "encrypt with the state the library kept returns Ok, the document is encrypted again and decrypts to the plaintext with the user and the owner password",
+        "named-filters-encoded" => "the encryption dictionary of the encrypted document defines (in CF, with the right CFM) every crypt filter that StmF, StrF or a stream's own Crypt filter names - otherwise no reader, lopdf included, can decrypt that stream",
+        "authenticate-accepts" => "on an encrypted document authenticate_user_password / authenticate_password accept the user password and authenticate_owner_password / authenticate_password accept the owner password",
         "reload-of-encrypted" => "save_to + load_mem of an encrypted state either is still encrypted and equal to the state before saving, or (only if the empty password is the user or owner password) is decrypted to the plaintext",
         _ => "invariant of the C05 model",
     }
@@ -394,7 +399,9 @@ fn check_encrypted(t: &Tuple, d: &Document) -> Vec<Failure> {
             return out;
         };
         let same_shape = menu::zip_leaves(&t.cfg, p, o, &format!("obj({} {})", id.0, id.1), &mut |path, leaf, m, a, b| {
-            if a.len() >= 16 && m != F::Identity && a == b {
+            // (the Contents of a signature dictionary - or of what may be one - is not "subject to a filter" under
+            // ISO 32000-2 7.6.2: encrypting it and leaving it alone are both accepted, it must only come back)
+            if a.len() >= 16 && m != F::Identity && a == b && leaf != Leaf::SigContents {
                 if leaf == Leaf::StrInStreamDict {
                     sd.push(short_path(path));
                 } else if leaf == Leaf::StrInMetadataDict && !t.cfg.em {
@@ -437,6 +444,62 @@ fn check_encrypted(t: &Tuple, d: &Document) -> Vec<Failure> {
             finding: None,
             hard: false,
         });
+    }
+    // the encoded dictionary defines every crypt filter that is named (read by the reference handler's parser)
+    if t.cfg.has_filters() {
+        if let Some(Ok(enc)) = d.objects.get(&enc_id).and_then(|o| o.as_dict().ok()).map(EncDict::parse) {
+            let mut used: BTreeSet<Vec<u8>> = [t.cfg.filter_name(t.cfg.stm), t.cfg.filter_name(t.cfg.strf)].into_iter().collect();
+            for p in t.plain.objects.values() {
+                if let Object::Stream(st) = p {
+                    if let Some(Some(n)) = menu::crypt_override_name(&st.dict) {
+                        used.insert(n);
+                    }
+                }
+            }
+            let missing: Vec<String> = t
+                .cfg
+                .cf_entries()
+                .into_iter()
+                .filter(|(n, _)| used.contains(n))
+                .filter_map(|(n, f)| match enc.cf.get(&n) {
+                    Some(cfm) if cfm.as_slice() == menu::nominal_cfm(f) => None,
+                    Some(cfm) => Some(format!("/{} has CFM /{} instead of /{}", String::from_utf8_lossy(&n), String::from_utf8_lossy(cfm), String::from_utf8_lossy(menu::nominal_cfm(f)))),
+                    None => Some(format!("/{} is not in CF", String::from_utf8_lossy(&n))),
+                })
+                .collect();
+            if !missing.is_empty() {
+                out.push(Failure {
+                    inv: "named-filters-encoded",
+                    detail: format!(
+                        "crypt filters registered in the EncryptionState and named by StmF, StrF or a stream's Crypt filter: {}; CF of the written dictionary holds [{}]",
+                        missing.join(", "),
+                        enc.cf.keys().map(|k| format!("/{}", String::from_utf8_lossy(k))).collect::<Vec<_>>().join(" ")
+                    ),
+                    finding: None,
+                    hard: false,
+                });
+            }
+        }
+    }
+    // authenticate_* accept the two passwords
+    if t.auth_probes {
+        let r = t.cfg.revision();
+        let absent_owner = r <= 4 && same_pw(r, &t.owner, "") && !same_pw(r, &t.user, "");
+        let mut bad: Vec<String> = vec![];
+        let mut probe = |what: &str, res: Result<Result<(), lopdf::Error>, String>| {
+            if !matches!(res, Ok(Ok(()))) {
+                bad.push(format!("{} returned {}", what, outcome_kind(&res)));
+            }
+        };
+        probe("authenticate_user_password(user)", util::guard(|| d.authenticate_user_password(&t.user)));
+        probe("authenticate_password(user)", util::guard(|| d.authenticate_password(&t.user)));
+        if !absent_owner {
+            probe("authenticate_owner_password(owner)", util::guard(|| d.authenticate_owner_password(&t.owner)));
+            probe("authenticate_password(owner)", util::guard(|| d.authenticate_password(&t.owner)));
+        }
+        if !bad.is_empty() {
+            out.push(Failure { inv: "authenticate-accepts", detail: bad.join("; "), finding: classify_long_password(t, &t.user).or_else(|| classify_long_password(t, &t.owner)), hard: false });
+        }
     }
     // decryptable to the plaintext (this is what makes merging states on the model value sound)
     let mut c = d.clone();
@@ -668,6 +731,7 @@ fn case_json(t: &Tuple, path: &[Op]) -> Value {
         "id_shape": t.id_shape.name(),
         "ladder_depth": t.depth,
         "in_memory_only": t.in_memory_only,
+        "auth_probes": t.auth_probes,
         "path": path.iter().map(|o| o.name()).collect::<Vec<_>>(),
         "plain": doc_to_json(&t.plain),
     })
@@ -694,6 +758,7 @@ fn tuple_from_case(v: &Value) -> Tuple {
         id_shape: IdShape::from_name(v["id_shape"].as_str().unwrap_or("hex")),
         depth: v["ladder_depth"].as_u64().unwrap_or(0) as usize,
         in_memory_only: v["in_memory_only"].as_bool().unwrap_or(false),
+        auth_probes: v["auth_probes"].as_bool().unwrap_or(true),
         plain,
     }
 }
@@ -950,6 +1015,15 @@ fn main_kinds() -> Vec<DocKind> {
     v
 }
 
+/// Every password pair a `Spec` can name: the 9 pairs of the main product, then (revisions 5 and 6 only) the pairs
+/// with a character across byte 127 and the long non-Latin pairs.
+fn all_pairs() -> Vec<(&'static str, String, String)> {
+    let mut v = menu::password_pairs();
+    v.extend(menu::straddling_pairs());
+    v.extend(menu::long_nonlatin_pairs());
+    v
+}
+
 fn specs(run: &Run, depths: Depths) -> (Vec<Spec>, u64) {
     let configs = menu::configs();
     let pairs = menu::password_pairs();
@@ -1042,11 +1116,54 @@ fn specs(run: &Run, depths: Depths) -> (Vec<Spec>, u64) {
             }
         }
     }
+    // --- extra-crypt-filter family: configurations whose CF holds more filters than StmF / StrF name (also with StmF =
+    // StrF = /Identity, where a stream can only opt in) x the documents whose streams carry Crypt overrides - naming
+    // every CF entry, /Identity, nothing, an unusable name; dictionary and array form - x password pairs
+    let quick3 = |name: &str| matches!(name, "distinct" | "empty_user" | "both_empty");
+    for (ci, cfg) in menu::configs_extra_cf().iter().enumerate() {
+        let r6 = cfg.revision() == 6;
+        for (ki, kind) in [DocKind::CryptNamed, DocKind::CryptUndefined, DocKind::Crypt, DocKind::CryptArray].into_iter().enumerate() {
+            for (pi, pair) in pairs.iter().enumerate() {
+                let in_quick = if r6 { cfg.em && ki < 2 && matches!(pair.0, "distinct" | "empty_user") } else { quick3(pair.0) };
+                if !(in_quick || (run.thorough && (!r6 || quick3(pair.0)))) {
+                    continue;
+                }
+                out.push(Spec { kind, cfg: cfg.clone(), pair: pi, perms: all, table: (ci + ki + pi) % 2 == 0, id_shape: IdShape::Hex, depth: 0 });
+            }
+        }
+    }
+    // --- key-name family: strings under key names that look special (Contents, ID, O, U, Perms, Cert, Filter, Encrypt,
+    // ...), literal and hexadecimal, in ordinary dictionaries at every placement; real and doubtful signature
+    // dictionaries x one configuration per key-derivation variant x password pairs
+    for (ci, cfg) in id_family_configs().iter().enumerate() {
+        let r6 = cfg.revision() == 6;
+        for (ki, kind) in [DocKind::KeyNames, DocKind::SigDict, DocKind::SigAmbiguous].into_iter().enumerate() {
+            for (pi, pair) in pairs.iter().enumerate() {
+                let in_quick = matches!(pair.0, "distinct" | "empty_user") && (!r6 || cfg.em);
+                if !(in_quick || (run.thorough && (!r6 || quick3(pair.0)))) {
+                    continue;
+                }
+                out.push(Spec { kind, cfg: cfg.clone(), pair: pi, perms: all, table: (ci + ki + pi) % 2 == 1, id_shape: IdShape::Hex, depth: 0 });
+            }
+        }
+    }
+    // --- long-password family (revisions 5 and 6): passwords of around and beyond 127 UTF-8 bytes made of 2-, 3- and
+    // 4-byte characters (all-Cyrillic, all-CJK, mixed), a character across byte 127, SASLprep changing the length
+    let everything = all_pairs();
+    let r6_quick = ["long_cyrillic", "long_cjk", "mixed_scripts", "prep_shrinks_below_127", "cut127_3byte", "short_user_long_owner"];
+    for (ci, cfg) in configs.iter().filter(|c| c.revision() >= 5 && c.em && c.stm == F::Aes256 && c.strf == F::Aes256).enumerate() {
+        for (pi, pair) in everything.iter().enumerate().skip(pairs.len()) {
+            if cfg.revision() == 6 && !run.thorough && !r6_quick.contains(&pair.0) {
+                continue;
+            }
+            out.push(Spec { kind: DocKind::Page, cfg: cfg.clone(), pair: pi, perms: all, table: (ci + pi) % 2 == 0, id_shape: IdShape::Hex, depth: 0 });
+        }
+    }
     (out, rest)
 }
 
-fn build_tuple(s: &Spec) -> Tuple {
-    let pairs = menu::password_pairs();
+fn build_tuple(s: &Spec, thorough: bool) -> Tuple {
+    let pairs = all_pairs();
     let (name, user, owner) = pairs[s.pair].clone();
     let r = s.cfg.revision();
     Tuple {
@@ -1062,6 +1179,7 @@ fn build_tuple(s: &Spec) -> Tuple {
         id_shape: s.id_shape,
         depth: s.depth,
         in_memory_only: s.kind == DocKind::DeepMemory,
+        auth_probes: thorough || s.cfg.revision() != 6 || s.pair >= menu::password_pairs().len(),
         plain: {
             let id0 = menu::id_of_len(16);
             let mut d = if s.kind.is_deep() { menu::build_deep(s.kind, s.depth, &id0) } else { menu::build_doc(s.kind, &s.cfg, &id0, false) };
@@ -1087,6 +1205,9 @@ fn main() {
          x 9 password pairs x permission sets {all, none, each single flag} x cross-reference format {table, stream} (revision 6: one format per tuple, alternating, and permission sets {all, none, one single flag in rotation}), enumerated in a fixed order without repetition; from each tuple a BFS to \
          depth 4 over 7 transitions on the real Document (encrypt, encrypt with the state the library kept after a decrypt, save_to+load_mem, decrypt with the user / owner / two wrong passwords), deduplicated on (abstract state, has-passed-through-save/load, protected-with-the-kept-state); \
          plus the deep-nesting family: two documents of 'ladders' (a string at EVERY nesting depth 1..D inside arrays, dictionaries, both alternating either way, and a stream dictionary; D = the deepest nesting the reader accepts, measured at start-up, resp. D = 1100 in memory only, where save_to+load_mem is not a transition; plus a 1030-element array and a 260-entry dictionary) x every configuration x password pairs; \
+         plus the extra-crypt-filter family: configurations whose CF dictionary holds MORE crypt filters than StmF / StrF name (one extra filter per CFM of the version, names sorting before / between / after the default ones; V4 x {RC4,AES-128,Identity}^2, revision 5 and V5 x {AES-256,Identity}^2, incl. StmF = StrF = /Identity where a stream can only opt in) x documents whose streams carry Crypt overrides naming EVERY CF entry, /Identity, no name, and unusable names (undefined, other case, a string, an array, null), each in the dictionary form, the one-element array form and the array form next to a second filter; after every encrypt the written encryption dictionary is read by the reference handler's parser and must define every named filter; \
+         plus the key-name family: strings of 16..33 bytes in literal AND hexadecimal format under 34 key names that look special (Contents, ID, O, U, OE, UE, Perms, Cert, Filter, Encrypt, CF, ...) in ordinary dictionaries - top-level, nested, in arrays, in stream dictionaries, in dictionaries typed /XRef, /ObjStm, /Encrypt and one shaped like an encryption dictionary - which must all be encrypted; real signature dictionaries (/Type /Sig or /DocTimeStamp + /ByteRange + hexadecimal /Contents) and doubtful ones, whose Contents must come back but may or may not be encrypted (ISO 32000-2 7.6.2); \
+         plus the long-password family (revisions 5, 6): 14 pairs of passwords of 126..180 UTF-8 bytes - all-Cyrillic, all-CJK, all 4-byte, mixed, a 2-/3-/4-byte character across byte 127, the cut exactly on a boundary, only the user or only the owner password long, SASLprep shrinking the password below / expanding it beyond 127 bytes; on every encrypted state authenticate_user_password / authenticate_owner_password / authenticate_password must accept the passwords; \
          plus the file-identifier family: the trailer's /ID as literal strings, with an empty first string, with one element, absent, an empty array, with an integer or a name as first element, a string instead of an array x one configuration per key-derivation variant x 9 password pairs (revisions 5/6 never use the identifier: everything must work; revisions <= 4 without a first string: lopdf may refuse to build the state); a tuple is non-trivial \
          when an encrypted state was reached; states = distinct (tuple, abstract state) pairs reached; a trace is a path whose last transition \
          satisfied every invariant",
@@ -1113,7 +1234,7 @@ fn main() {
     let done = AtomicU64::new(0);
     let cpu: Mutex<BTreeMap<String, f64>> = Mutex::new(BTreeMap::new());
     util::par_for(list.len(), |i| {
-        let t = build_tuple(&list[i]);
+        let t = build_tuple(&list[i], run.thorough);
         let t0 = std::time::Instant::now();
         let st = explore(&run, &t);
         *cpu.lock().unwrap().entry(format!("R{} {}", t.cfg.revision(), t.kind.name())).or_insert(0.0) += t0.elapsed().as_secs_f64();
@@ -1152,11 +1273,30 @@ fn main() {
         json!(cpu.into_inner().unwrap().into_iter().map(|(k, v)| (k, (v * 10.0).round() / 10.0)).collect::<BTreeMap<String, f64>>()),
     );
     run.set("configurations", json!(menu::configs().len()));
-    run.set("documents", json!(main_kinds().iter().chain([DocKind::DeepLoadable, DocKind::DeepMemory].iter()).map(|d| d.name()).collect::<Vec<_>>()));
+    run.set(
+        "documents",
+        json!(main_kinds()
+            .iter()
+            .chain([DocKind::DeepLoadable, DocKind::DeepMemory, DocKind::CryptNamed, DocKind::CryptUndefined, DocKind::KeyNames, DocKind::SigDict, DocKind::SigAmbiguous].iter())
+            .map(|d| d.name())
+            .collect::<Vec<_>>()),
+    );
     run.set("file_identifier_shapes", json!(IdShape::ALL.iter().map(|x| x.name()).collect::<Vec<_>>()));
     let fam = |f: &dyn Fn(&Spec) -> bool| list.iter().filter(|s| f(s)).count();
     run.set("start_tuples_deep_nesting_family", json!(fam(&|s| s.kind.is_deep())));
     run.set("start_tuples_file_identifier_family", json!(fam(&|s| s.id_shape != IdShape::Hex)));
+    let extra_kinds = [DocKind::CryptNamed, DocKind::CryptUndefined];
+    let key_kinds = [DocKind::KeyNames, DocKind::SigDict, DocKind::SigAmbiguous];
+    run.set("start_tuples_extra_crypt_filter_family", json!(fam(&|s| s.cfg.extra_cf)));
+    run.set("start_tuples_extra_crypt_filter_family_overrides_naming_every_cf_entry", json!(fam(&|s| s.cfg.extra_cf && extra_kinds.contains(&s.kind))));
+    run.set("configurations_with_more_crypt_filters_than_stmf_strf_name", json!(menu::configs_extra_cf().iter().map(|c| c.to_json()).collect::<Vec<_>>()));
+    run.set("start_tuples_key_name_family", json!(fam(&|s| key_kinds.contains(&s.kind))));
+    run.set("key_names_carrying_strings", json!(menu::KEY_MENU.to_vec()));
+    run.set("start_tuples_long_password_family", json!(fam(&|s| s.pair >= menu::password_pairs().len())));
+    run.set(
+        "long_password_pairs_utf8_bytes_user_owner",
+        json!(all_pairs().iter().skip(menu::password_pairs().len()).map(|p| json!([p.0, utf8_prep_full(&p.1).map(|b| b.len()).unwrap_or(0), utf8_prep_full(&p.2).map(|b| b.len()).unwrap_or(0)])).collect::<Vec<_>>()),
+    );
     run.set("password_pairs", json!(menu::password_pairs().iter().map(|p| p.0).collect::<Vec<_>>()));
     run.set("depth", json!(DEPTH));
     if !run.thorough {
